@@ -1641,6 +1641,8 @@ def run(run):
         run.sample({"function_event": events[-1]})
     ncalls = sum(e["n"] for e in events)        # executed cases (forms, forms on the wide pool, graph programs, calls)
     run.cov["traces_validated_against_impl"] = ncalls
+    if run.tier != "quick":
+        evaluations += slow_cases(run)
     run.cov["evaluations"] = evaluations
     run.cov["distinct_nontrivial"] = ncalls - trivial
     run.cov["rule"] = ("distinct (form, argument tuple) cases and graph programs generated by TLC, the forms applied "
@@ -1753,7 +1755,48 @@ def run(run):
     run.cov["evaluations"] += nrepl
 
 
+# ---------------------------------------------------------------------------------------------------------------
+# cases whose honest work takes seconds (thorough tier only): finite data at a size where a loop that depends on
+# the seeded generator's 233 280 states either makes progress with every draw or cannot end.  Each runs in a process
+# of its own with a processor-time limit an order of magnitude above the time the unchanged tree needs.
+SLOW_CASES = {
+    "sample_beyond_generator_states": ("require Random; Random->set_seed(1); length(Random->sample(range(240000), 239990))", "239990", 150),
+    "choices_beyond_generator_states": ("require Random; Random->set_seed(1); length(Random->choices(range(240000), 1000))", "1000", 60),
+}
+_SLOW = r"""
+import resource, sys
+sys.path.insert(0, %r)
+resource.setrlimit(resource.RLIMIT_CPU, (%d, %d))
+from ckl.interpreter import Interpreter
+from ckl.errors import CklRuntimeError
+try:
+    print("val", Interpreter(True, False).interpret(%r, "c13"))
+except CklRuntimeError as e:
+    print("err", str(e.msg)[:80])
+"""
+
+
+def slow_cases(run):
+    import subprocess
+    n = 0
+    for name, (src, want, limit) in sorted(SLOW_CASES.items()):
+        code = _SLOW % (os.path.join(REPO, "src"), limit, limit + 5, src)
+        try:
+            r = subprocess.run([sys.executable, "-c", code], capture_output=True, text=True, timeout=limit * 6)
+            out = r.stdout.strip() or f"ended with status {r.returncode}: {r.stderr.strip()[-120:]}"
+        except subprocess.TimeoutExpired:
+            out = "no end within the wall-clock backstop"
+        n += 1
+        if out != "val " + want and not out.startswith("err "):
+            run.violation("slow:" + name, f"timeout: `{src}` (limit {limit} processor seconds, the unchanged tree needs about a "
+                          f"tenth of it): {out[:160]}", {"kind": "slow", "name": name})
+    return n
+
+
 def replay(run, case):
+    if case.get("kind") == "slow":
+        slow_cases(run)
+        return
     if case.get("kind") == "repl-eval":
         from . import repl
         prompts, outputs, exc = repl.session(case["lines"] + ["exit"], secure=case.get("secure", True))
